@@ -84,226 +84,262 @@ Section Fan.
     connected c = true /\ exists f qs, In (c, f, qs) subs /\ matches f = true /\ qos <= qs.
 End Fan.
 
-(** * C16: connections, sessions, takeover *)
+(** * C16: connections, sessions, takeover
+
+    Everything the broker keeps is keyed by client id and the steps for
+    different ids do not interact, so the model is a state machine per client
+    id ([cstate], [cstep]); the broker is their product ([state], [step]). *)
 
 Definition topics := list (string * Z).                 (* filter -> QoS *)
 
 Record session := { s_clean : bool; s_topics : topics; s_closed : bool }.
 
 Record conn := {
-  c_cid : string;
   c_sess : Z;            (* identity of the Session object the Client holds *)
   c_live : bool;         (* statusFlag = Connected *)
   c_torn : bool;         (* the deferred cleanup of readLoop has run *)
   c_resub : bool         (* the re-subscription after CONNECT has run (readLoop is active) *)
 }.
 
-Record state := {
-  clients : list (string * Z);                 (* Broker.clients : client id -> connection *)
-  smap : list (string * Z);                    (* SessionManager.sessionMap : client id -> session object *)
-  heap : list (Z * session);                   (* session objects by identity *)
-  db : list (string * (bool * topics));        (* the session store (yaml: cleanFlag, topics) *)
-  trie : list (string * topics);               (* TopicManager, projected per client id *)
-  conns : list (Z * conn);
+Record cstate := {
+  reg : option Z;                    (* Broker.clients[cid] : the registered connection *)
+  smp : option Z;                    (* SessionManager.sessionMap[cid] : the live session object *)
+  heap : list (Z * session);         (* session objects of this id, by identity *)
+  dbv : option (bool * topics);      (* the session store's entry (yaml: cleanFlag, topics) *)
+  tri : topics;                      (* TopicManager restricted to this id *)
+  conns : list (Z * conn);           (* the connections that ever used this id *)
   next_sid : Z
 }.
 
-Definition state0 : state :=
-  {| clients := []; smap := []; heap := []; db := []; trie := []; conns := []; next_sid := 0 |}.
+Definition cstate0 : cstate :=
+  {| reg := None; smp := None; heap := []; dbv := None; tri := []; conns := []; next_sid := 0 |}.
 
-Inductive ev :=
-| Connect (k : Z) (cid : string) (clean : bool)       (* handleConn: the section under the broker lock *)
-| Resubscribe (k : Z)                                 (* handleConn: updateEGName + subscribe the session's topics *)
-| Subscribe (k : Z) (fs : topics)
-| Unsubscribe (k : Z) (fs : list string)
-| Teardown (k : Z)                                    (* readLoop's deferred cleanup, at ANY later point *)
-| AdminDelete (cid : string)                          (* DELETE .../sessions + the store's delete-watch *)
-| Publish (topic : string).                           (* observation only *)
+Inductive cev :=
+| CConnect (k : Z) (clean : bool)       (* handleConn: the section under the broker lock *)
+| CResubscribe (k : Z)                  (* handleConn: updateEGName + subscribe the session's topics *)
+| CSubscribe (k : Z) (fs : topics)
+| CUnsubscribe (k : Z) (fs : list string)
+| CTeardown (k : Z)                     (* readLoop's deferred cleanup, at ANY later point *)
+| CAdminDelete.                         (* DELETE .../sessions + the store's delete-watch *)
 
-Definition trie_of (st : state) (cid : string) : topics :=
-  match sget cid (trie st) with Some m => m | None => [] end.
-
-Definition get_sess (st : state) (sid : Z) : session :=
-  match zget sid (heap st) with
+Definition get_sess (cs : cstate) (sid : Z) : session :=
+  match zget sid (heap cs) with
   | Some s => s
   | None => {| s_clean := false; s_topics := []; s_closed := true |}
   end.
 
-Definition set_clients v st := {| clients := v; smap := smap st; heap := heap st; db := db st; trie := trie st; conns := conns st; next_sid := next_sid st |}.
-Definition set_smap v st := {| clients := clients st; smap := v; heap := heap st; db := db st; trie := trie st; conns := conns st; next_sid := next_sid st |}.
-Definition set_heap v st := {| clients := clients st; smap := smap st; heap := v; db := db st; trie := trie st; conns := conns st; next_sid := next_sid st |}.
-Definition set_db v st := {| clients := clients st; smap := smap st; heap := heap st; db := v; trie := trie st; conns := conns st; next_sid := next_sid st |}.
-Definition set_trie v st := {| clients := clients st; smap := smap st; heap := heap st; db := db st; trie := v; conns := conns st; next_sid := next_sid st |}.
-Definition set_conns v st := {| clients := clients st; smap := smap st; heap := heap st; db := db st; trie := trie st; conns := v; next_sid := next_sid st |}.
-Definition set_next v st := {| clients := clients st; smap := smap st; heap := heap st; db := db st; trie := trie st; conns := conns st; next_sid := v |}.
+Definition set_reg v cs := {| reg := v; smp := smp cs; heap := heap cs; dbv := dbv cs; tri := tri cs; conns := conns cs; next_sid := next_sid cs |}.
+Definition set_smp v cs := {| reg := reg cs; smp := v; heap := heap cs; dbv := dbv cs; tri := tri cs; conns := conns cs; next_sid := next_sid cs |}.
+Definition set_heap v cs := {| reg := reg cs; smp := smp cs; heap := v; dbv := dbv cs; tri := tri cs; conns := conns cs; next_sid := next_sid cs |}.
+Definition set_dbv v cs := {| reg := reg cs; smp := smp cs; heap := heap cs; dbv := v; tri := tri cs; conns := conns cs; next_sid := next_sid cs |}.
+Definition set_tri v cs := {| reg := reg cs; smp := smp cs; heap := heap cs; dbv := dbv cs; tri := v; conns := conns cs; next_sid := next_sid cs |}.
+Definition set_conns v cs := {| reg := reg cs; smp := smp cs; heap := heap cs; dbv := dbv cs; tri := tri cs; conns := v; next_sid := next_sid cs |}.
+Definition set_next v cs := {| reg := reg cs; smp := smp cs; heap := heap cs; dbv := dbv cs; tri := tri cs; conns := conns cs; next_sid := v |}.
 
-Definition upd_conn (k : Z) (f : conn -> conn) (st : state) : state :=
-  match zget k (conns st) with
-  | Some c => set_conns (zset k (f c) (conns st)) st
-  | None => st
+Definition upd_conn (k : Z) (f : conn -> conn) (cs : cstate) : cstate :=
+  match zget k (conns cs) with
+  | Some c => set_conns (zset k (f c) (conns cs)) cs
+  | None => cs
   end.
 
 Definition mark_dead (c : conn) : conn :=
-  {| c_cid := c_cid c; c_sess := c_sess c; c_live := false; c_torn := c_torn c; c_resub := c_resub c |}.
+  {| c_sess := c_sess c; c_live := false; c_torn := c_torn c; c_resub := c_resub c |}.
 Definition mark_torn (c : conn) : conn :=
-  {| c_cid := c_cid c; c_sess := c_sess c; c_live := false; c_torn := true; c_resub := c_resub c |}.
+  {| c_sess := c_sess c; c_live := false; c_torn := true; c_resub := c_resub c |}.
 Definition mark_resub (c : conn) : conn :=
-  {| c_cid := c_cid c; c_sess := c_sess c; c_live := c_live c; c_torn := c_torn c; c_resub := true |}.
+  {| c_sess := c_sess c; c_live := c_live c; c_torn := c_torn c; c_resub := true |}.
 
-Definition upd_sess (sid : Z) (f : session -> session) (st : state) : state :=
-  match zget sid (heap st) with
-  | Some s => set_heap (zset sid (f s) (heap st)) st
-  | None => st
+Definition upd_sess (sid : Z) (f : session -> session) (cs : cstate) : cstate :=
+  match zget sid (heap cs) with
+  | Some s => set_heap (zset sid (f s) (heap cs)) cs
+  | None => cs
   end.
 
 Definition close_sess (s : session) : session :=
   {| s_clean := s_clean s; s_topics := s_topics s; s_closed := true |}.
+Definition upd_topics (f : topics -> topics) (s : session) : session :=
+  {| s_clean := s_clean s; s_topics := f (s_topics s); s_closed := s_closed s |}.
 
-Definition trie_sub (cid : string) (fs : topics) (st : state) : state :=
-  set_trie (sset cid (aset_all String.eqb fs (trie_of st cid)) (trie st)) st.
-
-Definition trie_unsub (cid : string) (fs : list string) (st : state) : state :=
-  set_trie (sset cid (adel_all String.eqb fs (trie_of st cid)) (trie st)) st.
+Definition tri_sub (fs : topics) (cs : cstate) : cstate := set_tri (aset_all String.eqb fs (tri cs)) cs.
+Definition tri_unsub (fs : list string) (cs : cstate) : cstate := set_tri (adel_all String.eqb fs (tri cs)) cs.
 
 (** Session.store(): the yaml of the session as it is now *)
-Definition store_sess (cid : string) (sid : Z) (st : state) : state :=
-  let s := get_sess st sid in set_db (sset cid (s_clean s, s_topics s) (db st)) st.
+Definition store_sess (sid : Z) (cs : cstate) : cstate :=
+  let s := get_sess cs sid in set_dbv (Some (s_clean s, s_topics s)) cs.
 
-(** Broker.deleteSession, triggered by every delete of a session key in the store
+(** Broker.deleteSession, triggered by every delete of the session key in the store
     (the admin endpoint's, and the broker's own delDB) *)
-Definition delete_session (cid : string) (st : state) : state :=
-  match sget cid (clients st) with
-  | Some j => set_clients (sdel cid (clients st)) (upd_conn j mark_dead st)
-  | None => st
+Definition delete_session (cs : cstate) : cstate :=
+  match reg cs with
+  | Some j => set_reg None (upd_conn j mark_dead cs)
+  | None => cs
   end.
 
-Definition new_session (cid : string) (clean : bool) (st : state) : Z * state :=
-  let sid := next_sid st in
-  (sid, set_next (sid + 1)
-          (set_smap (sset cid sid (smap st))
-             (set_heap (zset sid {| s_clean := clean; s_topics := []; s_closed := false |} (heap st)) st))).
+Definition alloc_session (s : session) (cs : cstate) : Z * cstate :=
+  let sid := next_sid cs in
+  (sid, set_next (sid + 1) (set_smp (Some sid) (set_heap (zset sid s (heap cs)) cs))).
 
 (** SessionManager.get: the live session, else one rebuilt from the store *)
-Definition sess_get (cid : string) (st : state) : option Z * state :=
-  match sget cid (smap st) with
-  | Some sid => (Some sid, st)
+Definition sess_get (cs : cstate) : option Z * cstate :=
+  match smp cs with
+  | Some sid => (Some sid, cs)
   | None =>
-      match sget cid (db st) with
+      match dbv cs with
       | Some (cl, tp) =>
-          let sid := next_sid st in
-          (Some sid, set_next (sid + 1)
-                       (set_smap (sset cid sid (smap st))
-                          (set_heap (zset sid {| s_clean := cl; s_topics := tp; s_closed := false |} (heap st)) st)))
-      | None => (None, st)
+          let '(sid, cs') := alloc_session {| s_clean := cl; s_topics := tp; s_closed := false |} cs in
+          (Some sid, cs')
+      | None => (None, cs)
       end
   end.
 
-Definition do_resubscribe (k : Z) (st : state) : state :=
-  match zget k (conns st) with
+Definition do_resubscribe (k : Z) (cs : cstate) : cstate :=
+  match zget k (conns cs) with
   | Some c =>
-      let st1 := store_sess (c_cid c) (c_sess c) st in
-      let st2 := trie_sub (c_cid c) (s_topics (get_sess st1 (c_sess c))) st1 in
-      upd_conn k mark_resub st2
-  | None => st
+      let cs1 := store_sess (c_sess c) cs in
+      let cs2 := tri_sub (s_topics (get_sess cs1 (c_sess c))) cs1 in
+      upd_conn k mark_resub cs2
+  | None => cs
   end.
 
-Definition do_connect (q : quirks) (k : Z) (cid : string) (clean : bool) (st : state) : state :=
-  let st1 := match sget cid (clients st) with
-             | Some old => upd_conn old mark_dead st        (* go oldClient.close() *)
-             | None => st
-             end in
-  let '(prev, st2) := sess_get cid st1 in
-  let '(sid, st3) :=
-    match prev with
-    | Some p =>
-        if negb clean && negb (s_clean (get_sess st2 p)) then (p, st2)
-        else
-          let st2a := upd_sess p close_sess st2 in
-          let st2b := if q_takeover_teardown_unguarded q then st2a
-                      else trie_unsub cid (map fst (s_topics (get_sess st2 p))) st2a in
-          new_session cid clean st2b
-    | None => new_session cid clean st2
-    end in
-  let st4 := set_clients (sset cid k (clients st3)) st3 in
-  let st5 := set_conns (zset k {| c_cid := cid; c_sess := sid; c_live := true; c_torn := false; c_resub := false |}
-                             (conns st4)) st4 in
-  if q_takeover_teardown_unguarded q then st5 else do_resubscribe k st5.
+Definition fresh_session (clean : bool) : session := {| s_clean := clean; s_topics := []; s_closed := false |}.
 
-Definition owner (k : Z) (c : conn) (st : state) : bool :=
-  match sget (c_cid c) (clients st) with
+(** Broker.setSession *)
+Definition set_session (q : quirks) (clean : bool) (cs : cstate) : Z * cstate :=
+  let '(prev, cs2) := sess_get cs in
+  match prev with
+  | Some p =>
+      if negb clean && negb (s_clean (get_sess cs2 p)) then (p, cs2)
+      else
+        let cs2a := upd_sess p close_sess cs2 in
+        let cs2b := if q_takeover_teardown_unguarded q then cs2a
+                    else tri_unsub (map fst (s_topics (get_sess cs2 p))) cs2a in
+        alloc_session (fresh_session clean) cs2b
+  | None => alloc_session (fresh_session clean) cs2
+  end.
+
+Definition do_connect (q : quirks) (k : Z) (clean : bool) (cs : cstate) : cstate :=
+  let cs1 := match reg cs with
+             | Some old => upd_conn old mark_dead cs        (* go oldClient.close() *)
+             | None => cs
+             end in
+  let '(sid, cs3) := set_session q clean cs1 in
+  let cs4 := set_reg (Some k) cs3 in
+  let cs5 := set_conns (zset k {| c_sess := sid; c_live := true; c_torn := false; c_resub := false |} (conns cs4)) cs4 in
+  if q_takeover_teardown_unguarded q then cs5 else do_resubscribe k cs5.
+
+(** ideal: a connection cleans up only while it still owns the client id: no other connection is
+    registered for it and the session map still holds this connection's session *)
+Definition owner (k : Z) (c : conn) (cs : cstate) : bool :=
+  match reg cs with
   | Some j => j =? k
   | None => true
   end &&
-  match sget (c_cid c) (smap st) with
+  match smp cs with
   | Some sid => sid =? c_sess c
   | None => false
   end.
 
-Definition do_teardown (q : quirks) (k : Z) (c : conn) (st : state) : state :=
-  let cid := c_cid c in
-  let cleanup (st : state) :=
-    (* delLocal *)
-    let st1 := match sget cid (smap st) with
-               | Some sid => upd_sess sid close_sess (set_smap (sdel cid (smap st)) st)
-               | None => st
-               end in
-    (* delDB (+ the delete-watch it triggers) when this connection's session is clean *)
-    let st2 := if s_clean (get_sess st1 (c_sess c))
-               then delete_session cid (set_db (sdel cid (db st1)) st1) else st1 in
-    (* unsubscribe this connection's session's topics *)
-    trie_unsub cid (map fst (s_topics (get_sess st2 (c_sess c)))) st2 in
-  let st3 := if q_takeover_teardown_unguarded q || owner k c st then cleanup st else st in
-  let st4 := upd_conn k mark_torn st3 in
-  (* removeClient *)
-  match sget cid (clients st4) with
-  | Some j => match zget j (conns st4) with
-              | Some cj => if c_live cj then st4 else set_clients (sdel cid (clients st4)) st4
-              | None => st4
+Definition cleanup (c : conn) (cs : cstate) : cstate :=
+  (* delLocal *)
+  let cs1 := match smp cs with
+             | Some sid => upd_sess sid close_sess (set_smp None cs)
+             | None => cs
+             end in
+  (* delDB (+ the delete-watch it triggers) when this connection's session is clean *)
+  let cs2 := if s_clean (get_sess cs1 (c_sess c)) then delete_session (set_dbv None cs1) else cs1 in
+  (* unsubscribe this connection's session's topics *)
+  tri_unsub (map fst (s_topics (get_sess cs2 (c_sess c)))) cs2.
+
+Definition remove_client (cs : cstate) : cstate :=
+  match reg cs with
+  | Some j => match zget j (conns cs) with
+              | Some cj => if c_live cj then cs else set_reg None cs
+              | None => cs
               end
-  | None => st4
+  | None => cs
   end.
 
-Definition upd_topics (f : topics -> topics) (s : session) : session :=
-  {| s_clean := s_clean s; s_topics := f (s_topics s); s_closed := s_closed s |}.
+Definition do_teardown (q : quirks) (k : Z) (c : conn) (cs : cstate) : cstate :=
+  let cs3 := if q_takeover_teardown_unguarded q || owner k c cs then cleanup c cs else cs in
+  remove_client (upd_conn k mark_torn cs3).
+
+Definition cstep (q : quirks) (cs : cstate) (e : cev) : cstate :=
+  match e with
+  | CConnect k clean =>
+      match zget k (conns cs) with
+      | Some _ => cs
+      | None => do_connect q k clean cs
+      end
+  | CResubscribe k =>
+      match zget k (conns cs) with
+      | Some c => if c_resub c then cs else do_resubscribe k cs
+      | None => cs
+      end
+  | CSubscribe k fs =>
+      match zget k (conns cs) with
+      | Some c =>
+          if c_live c && c_resub c && negb (c_torn c) then
+            store_sess (c_sess c) (upd_sess (c_sess c) (upd_topics (aset_all String.eqb fs)) (tri_sub fs cs))
+          else cs
+      | None => cs
+      end
+  | CUnsubscribe k fs =>
+      match zget k (conns cs) with
+      | Some c =>
+          if c_live c && c_resub c && negb (c_torn c) then
+            store_sess (c_sess c) (upd_sess (c_sess c) (upd_topics (adel_all String.eqb fs)) (tri_unsub fs cs))
+          else cs
+      | None => cs
+      end
+  | CTeardown k =>
+      match zget k (conns cs) with
+      | Some c => if c_resub c && negb (c_torn c) then do_teardown q k c cs else cs
+      | None => cs
+      end
+  | CAdminDelete => delete_session (set_dbv None cs)
+  end.
+
+Definition crun (q : quirks) (cs : cstate) (es : list cev) : cstate := fold_left (cstep q) es cs.
+
+(** ** the broker: product over client ids *)
+
+Record state := { cids : list (string * cstate); owners : list (Z * string) }.
+Definition state0 : state := {| cids := []; owners := [] |}.
+
+Inductive ev :=
+| Connect (k : Z) (cid : string) (clean : bool)
+| Resubscribe (k : Z)
+| Subscribe (k : Z) (fs : topics)
+| Unsubscribe (k : Z) (fs : list string)
+| Teardown (k : Z)
+| AdminDelete (cid : string)
+| Publish (topic : string).                           (* observation only *)
+
+Definition cget (st : state) (cid : string) : cstate :=
+  match sget cid (cids st) with Some cs => cs | None => cstate0 end.
+
+Definition at_cid (q : quirks) (cid : string) (e : cev) (st : state) : state :=
+  {| cids := sset cid (cstep q (cget st cid) e) (cids st); owners := owners st |}.
+
+Definition at_owner (q : quirks) (k : Z) (e : cev) (st : state) : state :=
+  match zget k (owners st) with
+  | Some cid => at_cid q cid e st
+  | None => st
+  end.
 
 Definition step (q : quirks) (st : state) (e : ev) : state :=
   match e with
   | Connect k cid clean =>
-      match zget k (conns st) with
+      match zget k (owners st) with
       | Some _ => st
-      | None => do_connect q k cid clean st
+      | None => {| cids := sset cid (cstep q (cget st cid) (CConnect k clean)) (cids st);
+                   owners := zset k cid (owners st) |}
       end
-  | Resubscribe k =>
-      match zget k (conns st) with
-      | Some c => if c_resub c then st else do_resubscribe k st
-      | None => st
-      end
-  | Subscribe k fs =>
-      match zget k (conns st) with
-      | Some c =>
-          if c_live c && c_resub c && negb (c_torn c) then
-            let st1 := trie_sub (c_cid c) fs st in
-            let st2 := upd_sess (c_sess c) (upd_topics (aset_all String.eqb fs)) st1 in
-            store_sess (c_cid c) (c_sess c) st2
-          else st
-      | None => st
-      end
-  | Unsubscribe k fs =>
-      match zget k (conns st) with
-      | Some c =>
-          if c_live c && c_resub c && negb (c_torn c) then
-            let st1 := trie_unsub (c_cid c) fs st in
-            let st2 := upd_sess (c_sess c) (upd_topics (adel_all String.eqb fs)) st1 in
-            store_sess (c_cid c) (c_sess c) st2
-          else st
-      | None => st
-      end
-  | Teardown k =>
-      match zget k (conns st) with
-      | Some c => if c_resub c && negb (c_torn c) then do_teardown q k c st else st
-      | None => st
-      end
-  | AdminDelete cid => delete_session cid (set_db (sdel cid (db st)) st)
+  | Resubscribe k => at_owner q k (CResubscribe k) st
+  | Subscribe k fs => at_owner q k (CSubscribe k fs) st
+  | Unsubscribe k fs => at_owner q k (CUnsubscribe k fs) st
+  | Teardown k => at_owner q k (CTeardown k) st
+  | AdminDelete cid => at_cid q cid CAdminDelete st
   | Publish _ => st
   end.
 
@@ -312,6 +348,9 @@ Definition run (q : quirks) (st : state) (es : list ev) : state := fold_left (st
 (** who receives a QoS-0 message: the registered connection of every client id
     with a matching subscription in the trie *)
 Definition receivers (matches : string -> bool) (st : state) : list Z :=
-  flat_map (fun '(cid, k) =>
-              if existsb (fun '(f, _) => matches f) (trie_of st cid) then [k] else [])
-           (clients st).
+  flat_map (fun '(_, cs) =>
+              match reg cs with
+              | Some k => if existsb (fun '(f, _) => matches f) (tri cs) then [k] else []
+              | None => []
+              end)
+           (cids st).
